@@ -13,6 +13,8 @@ For every comparator family `f` of `semantic.Parse` and ALL strings (`List Char`
 import Scalibr.Proofs.Semantic.PyPI
 import Scalibr.Proofs.Semantic.MavenCanon
 import Scalibr.Proofs.Semantic.SemverSpec
+import Scalibr.Proofs.Semantic.SpecParse
+import Scalibr.Proofs.Semantic.Fuel
 namespace Scalibr.Semantic
 
 /-! ## generic wrappers -/
@@ -246,8 +248,26 @@ theorem C07_semver_hyphen_identifier :
     compareStr .semver ['1', '.', '0', '.', '0', '-', '-', '5'] ['1', '.', '0', '.', '0', '-', '1'] = .gt ∧
     compareStr .nuget ['1', '.', '0', '.', '0', '-', 'a', '.', '-', '1'] ['1', '.', '0', '.', '0', '-', 'a', '.', '0'] = .gt := by decide
 
+/-- The reader the oracle uses inverts `render`: every well-formed version is read back from its
+canonical text, so the driver's `spec=` verdict on a canonical pair is `specCmp` of exactly the
+versions `C07_semver_spec` speaks about. -/
+theorem C07_semver_specParse_render (x : SemVer) (hw : x.wf = true) (hb : x.buildWf = true) :
+    specParse x.render = some x :=
+  specParse_render x hw hb
+
+/-- Adequacy of the fuel of the remaining fuel-indexed recognisers: any fuel above the length of the
+argument gives the same result (the models pass `length + 1`). Debian / Red Hat / Packagist fuel is
+eliminated inside their `_trans` proofs; for Maven exhaustion is a `panic` outcome, excluded by
+`C07_maven_total`. -/
+theorem C07_fuel_adequate :
+    (∀ n m s, s.length < n → s.length < m → alpNumPrefix n s = alpNumPrefix m s) ∧
+    (∀ n m s, s.length < n → s.length < m → findSufs n s = findSufs m s) ∧
+    (∀ n m s, s.length < n → s.length < m → legacySplits n s = legacySplits m s) ∧
+    (∀ (a : PP) n m s c, s.length < n → s.length < m → pStar a n s c = pStar a m s c) :=
+  ⟨alpNumPrefix_fuel, findSufs_fuel, legacySplits_fuel, pStar_fuel⟩
+
 def exRc : SemVer := ⟨1, 2, 3, [.alnum ['r', 'c'], .num 1, .alnum ['-', '5']], ['b', '7']⟩
-example : exRc.wf = true ∧ exRc.render = ['1', '.', '2', '.', '3', '-', 'r', 'c', '.', '1', '.', '-', '5', '+', 'b', '7'] := by decide
+example : exRc.wf = true ∧ exRc.buildWf = true ∧ exRc.render = ['1', '.', '2', '.', '3', '-', 'r', 'c', '.', '1', '.', '-', '5', '+', 'b', '7'] := by decide
 example : specParse exRc.render = some exRc := by decide
 
 end Scalibr.Semantic
